@@ -109,6 +109,14 @@ def _ast_inputs(ctx, nb, ndouble, sim_seed):
     return [recs[k] for k in sorted(recs)], single, res["sim"], bases, kinds_spec
 
 
+def _site(a):
+    if a.get("kinds"):
+        return "+".join(a["kinds"])
+    if a["class"].startswith("corpus"):
+        return ":".join(a["key"].split(":")[:2])
+    return a["key"]
+
+
 def _event(inp, profile, engine, outcome):
     return {"ev": "Compiled", "pkg": inp["id"], "profile": profile, "engine": engine, "outcome": outcome}
 
@@ -119,7 +127,7 @@ def run(ctx):
         ctx.report("model:" + mc.violated, "CompileOutcome.tla violates its own invariant " + mc.violated,
                    {"tlc": mc.counterexample()[:4000]})
     # ------------------------------------------------------------------ inputs
-    nb, ndouble = (2, 60) if ctx.quick else (8, 1000)
+    nb, ndouble = (2, 30) if ctx.quick else (8, 1000)
     ast, tlc1, tlc2, bases, kinds_spec = _ast_inputs(ctx, nb, ndouble, 17)
     as_is, text = _corpus_inputs(ctx)
     fnd = _findings_inputs()
@@ -127,11 +135,11 @@ def run(ctx):
                   "ast_double": len([a for a in ast if a["class"] == "ast_double_mutant"]),
                   "corpus_as_is": len(as_is), "corpus_text_mutants": len(text), "finding_reproducers": len(fnd)}
     if ctx.quick:
-        inputs = (slice_for_seed([a for a in ast if a["class"] == "ast_single_mutant"], ctx.seed, 380)
-                  + slice_for_seed([a for a in ast if a["class"] == "ast_double_mutant"], ctx.seed, 40)
-                  + slice_for_seed([a for a in as_is if a["class"] == "corpus_should_fail"], ctx.seed, 30)
-                  + slice_for_seed([a for a in as_is if a["class"] == "corpus_should_pass"], ctx.seed, 10)
-                  + slice_for_seed(text, ctx.seed, 60) + fnd)
+        inputs = (slice_for_seed([a for a in ast if a["class"] == "ast_single_mutant"], ctx.seed, 240)
+                  + slice_for_seed([a for a in ast if a["class"] == "ast_double_mutant"], ctx.seed, 20)
+                  + slice_for_seed([a for a in as_is if a["class"] == "corpus_should_fail"], ctx.seed, 16)
+                  + slice_for_seed([a for a in as_is if a["class"] == "corpus_should_pass"], ctx.seed, 4)
+                  + slice_for_seed(text, ctx.seed, 30) + fnd)
     else:
         inputs = ast + as_is + text + fnd
     ids = {}
@@ -152,12 +160,12 @@ def run(ctx):
 
     dbg = cx.run_fast(ctx, inputs, "debug", procs=4)
     take(dbg, inputs, "debug", "vh-crash")
-    rel_inputs = slice_for_seed(inputs, ctx.seed + 1, max(20, len(inputs) // 10)) + fnd
+    rel_inputs = slice_for_seed(inputs, ctx.seed + 1, max(16, len(inputs) // 12)) + fnd
     rel_inputs = list({a["id"]: a for a in rel_inputs}.values())
     rel = cx.run_fast(ctx, rel_inputs, "release", procs=4)
     take(rel, rel_inputs, "release", "vh-crash")
     # the complete forc path (several packages per fresh vh-exec process), both profiles, on a slice
-    full_inputs = slice_for_seed([a for a in inputs if a["class"] != "finding_reproducer"], ctx.seed + 2, 6 if ctx.quick else 40)
+    full_inputs = slice_for_seed([a for a in inputs if a["class"] != "finding_reproducer"], ctx.seed + 2, 4 if ctx.quick else 40)
     unsupported = [a for a in inputs if results[(a["id"], "debug", "vh-crash")][0] == "unsupported"]
     for profile in ("debug", "release"):
         subset = full_inputs + (unsupported if profile == "debug" else [])
@@ -196,32 +204,37 @@ def run(ctx):
     pos, shard = 0, 20000
     while pos < len(events):
         chunk = events[pos:pos + shard]
-        off = pos
-        while chunk:
+        for attempt in (1, 2):
             tp = os.path.join(ctx.work, "trace.ndjson")
             write_ndjson(tp, chunk)
-            tr = ctx.tlc_trace("Trace_CompileOutcome", "Trace_CompileOutcome", tp, name="trace%d" % off)
+            tr = ctx.tlc_trace("Trace_CompileOutcome", "Trace_CompileOutcome", tp, name="trace%d-%d" % (pos, attempt))
             if tr.violated is None:
                 validated += len(chunk)
                 break
             k = tr.first_unmatched()
-            if tr.violated != "postcondition" or k is None:
+            m = re.search(r'<<"UNCONSUMABLE", "(\[[0-9,]*\])">>', tr.out)
+            if tr.violated != "postcondition" or k is None or not m or attempt == 2:
                 raise ToolError("trace validation failed unexpectedly: %s" % tr.violated)
-            validated += k - 1
-            rejected.append(chunk[k - 1])
-            chunk = chunk[k:]
-            off += k
+            bad = sorted(json.loads(m.group(1)))
+            if not bad or bad[0] != k:
+                raise ToolError("first rejected record %s is not the first unconsumable one %s" % (k, bad[:3]))
+            rejected += [chunk[i - 1] for i in bad]
+            chunk = [e for i, e in enumerate(chunk, 1) if i not in set(bad)]
         pos += shard
+    # One report per (crash signature, site): the site is the mutation kind(s) for generated mutants, the corpus
+    # program for corpus inputs, the file for kept reproducers -- the mechanism, not the individual mutant.
     groups = {}
     for ev in rejected:
         a = ids[ev["pkg"]]
         o, d = final[(ev["pkg"], ev["profile"], ev["engine"])]
-        sig = cx.signature(o, d)
-        groups.setdefault(sig, []).append(a["key"])
-        key = "%s|%s" % (a["key"], sig)
+        key = "%s|%s" % (cx.signature(o, d), _site(a))
+        groups.setdefault(key, []).append((a, ev, o, d))
+    for key in sorted(groups):
+        a, ev, o, d = groups[key][0]
         ctx.report(key, "compiling %s (%s, %s) ended with %s: %s" % (a["key"], ev["profile"], ev["engine"], o, d[:300]),
                    {"input": a["key"], "class": a["class"], "profile": ev["profile"], "engine": ev["engine"], "outcome": o,
-                    "detail": d, "signature": sig, "files": a["files"], "manifest": a.get("manifest")})
+                    "detail": d, "key": key, "files": a["files"], "manifest": a.get("manifest"),
+                    "inputs_with_this_key": sorted({x[0]["key"] + " [" + x[1]["profile"] + "]" for x in groups[key]})[:200]})
     # ------------------------------------------------------------------ binding self-test: a crash record must be rejected
     selftest = None
     if events:
@@ -273,7 +286,7 @@ def run(ctx):
         "suspicious_first": len(suspicious), "confirmed_alone": len([1 for v in confirmed.values() if v[0] not in ("artifacts", "diagnostics")]),
         "not_reproduced_alone": not_reproduced[:50],
         "engines_disagree": engines_disagree[:50],
-        "rejected_groups": {s: {"count": len(v), "first": v[0]} for s, v in groups.items()},
+        "rejected_groups": {k: {"count": len(v), "first": v[0][0]["key"]} for k, v in groups.items()},
         "binding_selftest": selftest,
         "action_coverage": dict(mc.coverage_actions(), **tlc1.coverage_actions()),
         "samples": samples,
